@@ -61,7 +61,7 @@ def gen_case(rng: random.Random, tier: str) -> dict:
     steps: list[dict] = []
     for _ in range(rng.randint(3, 8)):
         if rng.random() < 0.5:
-            steps.append({"op": "day", "days": rng.choice([1, 1, 1, 2, 7, 30, 31, 365])})
+            steps.append({"op": "day", "days": rng.choice([1, 1, 1, 2, 7, 30, 31, 365, -1, -5])})  # negative: clock set back
         x = rng.random()
         if x < 0.82:
             steps.append(_idx.gen_user_step(rng, feats, _EDIT_WEIGHTS, 1, 4))
@@ -281,6 +281,7 @@ def execute(case: dict, scratch: str) -> dict:
             sim.day += st["days"]
             rec.stat("days", st["days"])
             rec.note("day", days=st["days"])
+            rec.probe("fault:clock-set-back", int(st["days"] < 0))
             continue
         if op == "user":
             reports = user.apply_edits(sim.zdir, st["edits"], sim.day)
